@@ -303,12 +303,114 @@ def check_route(eng, run):
     run.floor("C20.route forwarders", n, 9)
 
 
+DONE_SCOPE = ("easynetwork.lowlevel.api_async.backend._asyncio._flow_control", "easynetwork.lowlevel.api_async.backend._asyncio.stream.socket",
+              "easynetwork.lowlevel.api_async.backend._asyncio.datagram", "easynetwork.lowlevel.api_async.backend._asyncio._asyncio_utils")
+
+
+def _parents(root):
+    m = {}
+    for n in ast.walk(root):
+        for c in ast.iter_child_nodes(n):
+            m[c] = n
+    return m
+
+
+def _guarded_by_done(pm, call, fut: str, stop) -> bool:
+    """`call` sits in the not-done branch of an `if` over `<fut>.done()` (lexically, inside `stop`), or after an early
+    `if <fut>.done(): return/continue` in the same block"""
+    n = call
+    while n in pm and n is not stop:
+        p = pm[n]
+        if isinstance(p, ast.If):
+            in_body = any(n is x for x in p.body)
+            t, neg = p.test, False
+            while isinstance(t, ast.UnaryOp) and isinstance(t.op, ast.Not):
+                t, neg = t.operand, not neg
+            conj = t.values if isinstance(t, ast.BoolOp) and isinstance(t.op, ast.And) and not neg else [t]
+            for cj in conj if in_body else [t]:
+                c_neg = neg
+                while isinstance(cj, ast.UnaryOp) and isinstance(cj.op, ast.Not):
+                    cj, c_neg = cj.operand, not c_neg
+                is_done = isinstance(cj, ast.Call) and isinstance(cj.func, ast.Attribute) and cj.func.attr == "done" and dotted(cj.func.value) == fut
+                if is_done and ((in_body and c_neg) or (not in_body and not c_neg and any(n is x for x in p.orelse))):
+                    return True
+        # early exit guard earlier in the same block
+        for field in ("body", "orelse", "finalbody"):
+            blk = getattr(p, field, None)
+            if isinstance(blk, list) and any(n is x for x in blk):
+                for st in blk[: [i for i, x in enumerate(blk) if x is n][0]]:
+                    if isinstance(st, ast.If) and isinstance(st.test, ast.Call) and isinstance(st.test.func, ast.Attribute) and st.test.func.attr == "done" \
+                            and dotted(st.test.func.value) == fut and st.body and isinstance(st.body[-1], (ast.Return, ast.Continue, ast.Raise)):
+                        return True
+        n = p
+    return False
+
+
+def check_done(eng, run):
+    """completing a future that is already done raises InvalidStateError in the middle of a wake-up sequence (the rest of the waiters /
+    the write-flow connection_lost that follows are skipped and suspended senders hang): every completion of a shared waiter is
+    guarded by `not <waiter>.done()` - `cancelled()` is not enough, a waiter can be done-with-result for one loop iteration"""
+    n = 0
+    completers: dict[str, tuple] = {}  # function qualname -> (callable param index) of functions that apply a completer callback under a done() guard
+    fns = [f for f in eng.db.all_functions() if f.module.name.startswith(DONE_SCOPE)]
+    # 1. functions applying a callable parameter to a future taken from shared state
+    for fn in fns:
+        if isinstance(fn.node, ast.Lambda):
+            continue
+        ps = [a.arg for a in fn.params()]
+        pm = _parents(fn.node)
+        for c in own_nodes(fn.node):
+            if isinstance(c, ast.Call) and isinstance(c.func, ast.Name) and c.func.id in ps and len(c.args) == 1 and isinstance(c.args[0], ast.Name) and (
+                    "waiter" in c.args[0].id or "fut" in c.args[0].id):
+                n += 1
+                ok = _guarded_by_done(pm, c, c.args[0].id, fn.node)
+                completers[fn.qualname] = (ps.index(c.func.id), ok)
+                if not ok:
+                    run.finding("C20.done", fn, _stmt_at(fn, c.lineno), f"`{ast.unparse(c)}` completes `{c.args[0].id}` without a `not {c.args[0].id}.done()` guard: a waiter that is already done (result set, "
+                                "task not yet resumed) makes the wake-up raise InvalidStateError and what follows it in connection_lost() - failing the suspended senders - never runs")
+                run.ob("C20.done", f"{fn.short}:{ast.unparse(c)}", ok)
+    # 2. direct completions
+    for fn in fns:
+        body_nodes = list(ast.walk(fn.node)) if isinstance(fn.node, ast.Lambda) else list(own_nodes(fn.node))
+        pm = _parents(fn.node)
+        for c in body_nodes:
+            if not (isinstance(c, ast.Call) and isinstance(c.func, ast.Attribute) and c.func.attr in ("set_result", "set_exception")):
+                continue
+            fut = dotted(c.func.value)
+            if fut is None:
+                continue
+            n += 1
+            ok = _guarded_by_done(pm, c, fut, fn.node)
+            why = "done-guard"
+            if not ok and not isinstance(fn.node, ast.Lambda):
+                # fresh future: assigned from create_future() / Future() in this function
+                fresh = any(isinstance(a, (ast.Assign, ast.AnnAssign)) and isinstance(getattr(a, "value", None), ast.Call) and (dotted(a.value.func) or "").split(".")[-1] in ("create_future", "Future")
+                            and any(dotted(t) == fut for t in (a.targets if isinstance(a, ast.Assign) else [a.target])) and a.lineno < c.lineno for a in own_nodes(fn.node))
+                ok, why = fresh, "fresh-future"
+            if not ok and isinstance(fn.node, ast.Lambda):
+                # a completer lambda: fine when it is handed to a function that applies it under a done() guard
+                outer = fn.parent if hasattr(fn, "parent") else None
+                host = next((f for f in fns if not isinstance(f.node, ast.Lambda) and any(x is fn.node for x in ast.walk(f.node))), None)
+                if host is not None:
+                    for call in ast.walk(host.node):
+                        if isinstance(call, ast.Call) and any(a is fn.node for a in call.args):
+                            for t in eng.typer.call_targets(host, call):
+                                if isinstance(t, FunctionInfo) and completers.get(t.qualname, (None, False))[1]:
+                                    ok, why = True, f"applied-by:{t.short}"
+            if not ok:
+                run.finding("C20.done", fn, _stmt_at(fn, c.lineno) if not isinstance(fn.node, ast.Lambda) else c, f"`{ast.unparse(c)[:70]}` is not guarded by `not {fut}.done()`: completing an already-done waiter raises "
+                            "InvalidStateError and aborts the wake-up of the senders queued behind it")
+            run.ob("C20.done", f"{fn.short}:{fut}.{c.func.attr}", ok, how=why)
+    run.floor("C20.done future completion sites", n, 10)
+
+
 def run(eng, run):
     run.not_decided += NOT_DECIDED
     run.assumptions += ["asyncio transports call pause_writing/resume_writing/connection_lost as documented"]
     check_drain(eng, run)
     check_zero(eng, run)
     check_wake(eng, run)
+    check_done(eng, run)
     check_own(eng, run)
     check_route(eng, run)
 
@@ -347,4 +449,29 @@ BENIGN = [
     Variant("resume-iterate-over-copy", _FC + ".resume_writing", lambda fn: replace_expr(fn, "self.__drain_waiters", "list(self.__drain_waiters)", nth=0), why="iterating over a list copy"),
     Variant("drain-rename-waiter", _FC + ".drain", lambda fn: rename_local(fn, "waiter", "fut"), why="local renamed"),
     Variant("send-all-drain-via-local", _SS + ".send_all", lambda fn: replace_stmt(fn, stmt_has("await self.__protocol.writer_drain()"), "protocol = self.__protocol\nawait protocol.writer_drain()"), why="drain through a local"),
+]
+
+_FCR = "lowlevel.api_async.backend._asyncio._flow_control:WriteFlowControl.resume_writing"
+_RWF = "lowlevel.api_async.backend._asyncio.stream.socket:StreamReaderBufferedProtocol._read_waiter_fut"
+
+
+def _suppress_instead_of_guard(fn):
+    lp = next(n for n in ast.walk(fn) if isinstance(n, ast.For))
+    iff = lp.body[0]
+    lp.body = iff.body
+    w = ast.parse("with contextlib.suppress(asyncio.InvalidStateError):\n    pass").body[0]
+    w.body = [lp]
+    fn.body[fn.body.index(lp)] = w
+
+
+MUTANTS += [
+    Variant("resume-writing-eafp-around-the-loop", _FCR, _suppress_instead_of_guard, "C20.done",
+            why="the first already-cancelled waiter aborts the loop: senders queued behind it are never resumed (seed C20-4)"),
+    Variant("read-waiter-guard-cancelled-only", _RWF, lambda fn: replace_expr(fn, "waiter.done()", "waiter.cancelled()"), "C20.done",
+            why="done-with-result waiter: connection_lost() aborts before failing the suspended senders (seed C20-6)"),
+]
+BENIGN += [
+    Variant("read-waiter-early-return-guard", _RWF,
+            lambda fn: setattr(fn, "body", ast.parse("waiter = self.__read_waiter\nif waiter is None:\n    return\nif waiter.done():\n    return\nset_result_cb(waiter)").body),
+            why="same guard written as early returns"),
 ]
